@@ -41,6 +41,7 @@ Let genv : env := g_genv G.
 Let FS : fsigs := g_sigs G.
 Let FT : list ident := map (fun kf => fd_name (snd kf)) (g_all G).
 Let TL : list ident := g_tl G.
+Let cp : bool := Nat.leb 6 lv.   (* level 6: copies of function objects, no assignment *)
 
 Local Notation step := (ValueVM4.step X).
 Local Notation star := (ValueVM4.star X).
@@ -56,26 +57,31 @@ Local Notation compile_items_let := (Compile4.compile_items_let FT TL).
 Local Notation compile_items_var := (Compile4.compile_items_var FT TL).
 Local Notation compile_items_expr := (Compile4.compile_items_expr FT TL).
 Local Notation compile_for := (Compile4.compile_for FT TL).
-Local Notation MS := (CompileCorrect4Rel.MS (g_all G) (x_ftab X) TL FS).
-Local Notation MS_fresh := (CompileCorrect4Rel.MS_fresh (g_all G) (x_ftab X) TL FS).
-Local Notation MS_alloc := (CompileCorrect4Rel.MS_alloc (g_all G) (x_ftab X) TL FS).
-Local Notation MS_alloc_gen := (CompileCorrect4Rel.MS_alloc_gen (g_all G) (x_ftab X) TL FS).
-Local Notation MS_assign := (CompileCorrect4Rel.MS_assign (g_all G) (x_ftab X) TL FS).
-Local Notation MS_payload_int := (CompileCorrect4Rel.MS_payload_int (g_all G) (x_ftab X) TL FS).
-Local Notation MS_payload_bool := (CompileCorrect4Rel.MS_payload_bool (g_all G) (x_ftab X) TL FS).
-Local Notation MS_payload_cell := (CompileCorrect4Rel.MS_payload_cell (g_all G) (x_ftab X) TL FS).
-Local Notation nil_cmp_mapped := (CompileCorrect4Rel.nil_cmp_mapped (g_all G) (x_ftab X) TL FS).
-Local Notation MS_addr_lt := (CompileCorrect4Rel.MS_addr_lt (g_all G) (x_ftab X) TL FS).
-Local Notation MS_vec_lt := (CompileCorrect4Rel.MS_vec_lt (g_all G) (x_ftab X) TL FS).
-Local Notation ms_rel := (CompileCorrect4Rel.ms_rel (g_all G) (x_ftab X) TL FS).
-Local Notation ms_inj := (CompileCorrect4Rel.ms_inj (g_all G) (x_ftab X) TL FS).
-Local Notation ms_len := (CompileCorrect4Rel.ms_len (g_all G) (x_ftab X) TL FS).
-Local Notation ms_fun := (CompileCorrect4Rel.ms_fun (g_all G) (x_ftab X) TL FS).
-Local Notation ms_fcl := (CompileCorrect4Rel.ms_fcl (g_all G) (x_ftab X) TL FS).
-Local Notation ms_fself := (CompileCorrect4Rel.ms_fself (g_all G) (x_ftab X) TL FS).
-Local Notation ms_vec := (CompileCorrect4Rel.ms_vec (g_all G) (x_ftab X) TL FS).
-Local Notation MS_closure := (CompileCorrect4Rel.MS_closure (g_all G) (x_ftab X) TL FS).
-Local Notation MS_run := (CompileCorrect4Rel.MS_run (g_all G) (x_ftab X) TL FS).
+Local Notation MS := (CompileCorrect4Rel.MS (g_all G) (x_ftab X) TL FS cp).
+Local Notation MS_fresh := (CompileCorrect4Rel.MS_fresh (g_all G) (x_ftab X) TL FS cp).
+Local Notation MS_alloc := (CompileCorrect4Rel.MS_alloc (g_all G) (x_ftab X) TL FS cp).
+Local Notation MS_alloc_gen := (CompileCorrect4Rel.MS_alloc_gen (g_all G) (x_ftab X) TL FS cp).
+Local Notation MS_assign := (CompileCorrect4Rel.MS_assign (g_all G) (x_ftab X) TL FS cp).
+Local Notation MS_payload_int := (CompileCorrect4Rel.MS_payload_int (g_all G) (x_ftab X) TL FS cp).
+Local Notation MS_payload_bool := (CompileCorrect4Rel.MS_payload_bool (g_all G) (x_ftab X) TL FS cp).
+Local Notation MS_payload_cell := (CompileCorrect4Rel.MS_payload_cell (g_all G) (x_ftab X) TL FS cp).
+Local Notation nil_cmp_mapped := (CompileCorrect4Rel.nil_cmp_mapped (g_all G) (x_ftab X) TL FS cp).
+Local Notation MS_addr_lt := (CompileCorrect4Rel.MS_addr_lt (g_all G) (x_ftab X) TL FS cp).
+Local Notation MS_vec_lt := (CompileCorrect4Rel.MS_vec_lt (g_all G) (x_ftab X) TL FS cp).
+Local Notation ms_rel := (CompileCorrect4Rel.ms_rel (g_all G) (x_ftab X) TL FS cp).
+Local Notation ms_inj := (CompileCorrect4Rel.ms_inj (g_all G) (x_ftab X) TL FS cp).
+Local Notation ms_len := (CompileCorrect4Rel.ms_len (g_all G) (x_ftab X) TL FS cp).
+Local Notation ms_fun := (CompileCorrect4Rel.ms_fun (g_all G) (x_ftab X) TL FS cp).
+Local Notation ms_fcl := (CompileCorrect4Rel.ms_fcl (g_all G) (x_ftab X) TL FS cp).
+Local Notation ms_fself := (CompileCorrect4Rel.ms_fself (g_all G) (x_ftab X) TL FS cp).
+Local Notation ms_vec := (CompileCorrect4Rel.ms_vec (g_all G) (x_ftab X) TL FS cp).
+Local Notation MS_closure := (CompileCorrect4Rel.MS_closure (g_all G) (x_ftab X) TL FS cp).
+Local Notation MS_run := (CompileCorrect4Rel.MS_run (g_all G) (x_ftab X) TL FS cp).
+Local Notation MS_copy := (CompileCorrect4Rel.MS_copy (g_all G) (x_ftab X) TL FS cp).
+Local Notation ms_cp := (CompileCorrect4Rel.ms_cp (g_all G) (x_ftab X) TL FS cp).
+Local Notation ms_nocp := (CompileCorrect4Rel.ms_nocp (g_all G) (x_ftab X) TL FS cp).
+Local Notation vrel_fun := (CompileCorrect4Rel.vrel_fun (g_all G) (x_ftab X) TL FS cp).
+Local Notation vrel_intv := (CompileCorrect4Rel.vrel_intv (g_all G) (x_ftab X) TL FS cp).
 Local Notation fun_addr := (CompileCorrect4Rel.fun_addr (g_all G) (x_ftab X)).
 Local Notation cell_rel_intv := (CompileCorrect4Rel.cell_rel_intv (g_all G) (x_ftab X) TL FS).
 Local Notation env_match_g := (CompileCorrect4Rel.env_match G).
@@ -303,7 +309,7 @@ Proof. destruct b1, b2; reflexivity. Qed.
    frame registers are what they were *)
 Definition post_ok (prog : list rinstr) (s : vstate) (pc' : nat) (m : morph) (c : nat) (st' : state) : Prop :=
   exists s' m' a, star prog s s' /\ v_ip s' = pc' /\ v_stk s' = a :: v_stk s /\
-    mget m' c = Some (MA a) /\ MS m' st' (v_heap s') /\ ext m m' /\ v_out s' = out st' /\
+    vrel m' c a /\ MS m' st' (v_heap s') /\ ext m m' /\ v_out s' = out st' /\
     v_fr s' = v_fr s.
 
 (* the handler at H is a bare LABEL; RETHROW (a function without catch clauses, or the end of the last
@@ -337,7 +343,7 @@ Definition concl (prog : list rinstr) (s : vstate) (pc n : nat) (m : morph) (r :
 
 Lemma post_ok_intro : forall prog s pc' m c st' s' m' a,
   star prog s s' -> v_ip s' = pc' -> v_stk s' = a :: v_stk s ->
-  mget m' c = Some (MA a) -> MS m' st' (v_heap s') -> ext m m' -> v_out s' = out st' ->
+  vrel m' c a -> MS m' st' (v_heap s') -> ext m m' -> v_out s' = out st' ->
   v_fr s' = v_fr s ->
   post_ok prog s pc' m c st'.
 Proof. intros. exists s', m', a. tauto. Qed.
@@ -408,7 +414,7 @@ Definition items_concl (prog : list rinstr) (s : vstate) (pc : nat) (code : list
       exists s' m' a locals, star prog s s' /\
         v_ip s' = (pc + length code)%nat /\
         v_stk s' = a :: locals ++ v_stk s /\ Z.of_nat (length locals) = nb /\
-        mget m' c = Some (MA a) /\ MS m' st' (v_heap s') /\ ext m m' /\ v_out s' = out st' /\
+        vrel m' c a /\ MS m' st' (v_heap s') /\ ext m m' /\ v_out s' = out st' /\
         v_fr s' = v_fr s
     | RExc ex => ex = ExDivision /\ raises prog s pc (pc + length code) m st'
     | _ => True
@@ -472,7 +478,7 @@ Qed.
 Lemma read_var : forall prog ip stk h o m st (env : Eval.env) ce sc L x,
   MS m st h -> env_match m env ce sc L stk -> mem_id x sc = true ->
   code_at prog ip (var_code FT TL fc L ce x) ->
-  exists c a, lookup x env = Some c /\ mget m c = Some (MA a) /\
+  exists c a, lookup x env = Some c /\ vrel m c a /\
     length (var_code FT TL fc L ce x) = 1%nat /\
     step prog (mkst ip stk h o) = SNext (mkst (S ip) (a :: stk) h o).
 Proof.
@@ -487,10 +493,16 @@ Proof.
     rewrite Z2Nat.id by lia. eapply code_at_head; eauto.
 Qed.
 
-Lemma case_EVar : forall k x, expr_case_at (S k) (EVar x).
+Lemma case_EVar_sc : forall k x,
+  forall env st r st', eval genv (S k) env st (EVar x) = (r, st') ->
+  forall sc, mem_id x sc = true ->
+  forall prog L ce ip stk h o m,
+    code_at prog ip (compile_expr fc L ce (EVar x)) ->
+    MS m st h -> o = out st -> env_match m env ce sc L stk ->
+    concl prog (mkst ip stk h o) ip (length (compile_expr fc L ce (EVar x))) m r st'.
 Proof.
   intros k x env st r st' He sc HF prog L ce ip stk h o m Hc HMS Hout Hem.
-  rewrite eval_EVar in He. simpl in HF.
+  rewrite eval_EVar in He.
   change (compile_expr fc L ce (EVar x)) with (var_code FT TL fc L ce x) in *.
   destruct (read_var prog ip stk h o m st env ce sc L x HMS Hem HF Hc) as (c & a & Hl & Hm & Hlen & Hstep).
   unfold lookup_var in He. rewrite Hl in He. inv He. simpl. rewrite Hlen.
@@ -676,7 +688,7 @@ Proof.
   2:{ destruct Hb as [-> Hr]. split; [reflexivity|]. eapply raises_star; [exact Hst1 | reflexivity | stk_ext | eapply raises_weaken; [exact Hr | lia | rewrite !app_length; lia] | ext_tac]. }
   destruct Hb as (s2 & m2 & a2 & Hst2 & Hip2 & Hstk2 & Hm2 & HMS2 & Hext2 & Hout2 & Hfr2).
   destruct s2 as [ip2 stk2 h2 o2 fr2]; simpl in Hip2, Hstk2, HMS2, Hout2, Hfr2; subst ip2 stk2 fr2.
-  assert (Hm1' : mget m2 c1 = Some (MA a1)) by (eapply ext_nth; eauto).
+  assert (Hm1' : vrel m2 c1 a1) by (eapply vrel_ext; eauto).
   assert (Hst : star prog (mkst ip stk h o) (mkst (ip + length ca + length cb) (a2 :: a1 :: stk) h2 o2))
     by (eapply star_trans; eauto).
   assert (Hlen : (ip + length ca + length cb + length (binop_code op) =
@@ -797,7 +809,9 @@ Proof.
   simpl in HF. destruct l; try discriminate HF.
   apply andb_true_iff in HF; destruct HF as [Fx Fb].
   apply andb_true_iff in Fx; destruct Fx as [Fx Fsh].
-  assert (Fa : in_F (fc_self fc) lv sc (EVar x) = true) by exact Fx.
+  apply andb_true_iff in Fx; destruct Fx as [Flv Fx].
+  assert (Hcpf : cp = false) by (unfold cp; apply Nat.leb_le in Flv; apply Nat.leb_gt; lia).
+  assert (Fa : in_F (fc_self fc) lv sc (EVar x) = true) by (cbn [Compile4.in_F]; rewrite Fx; reflexivity).
   rewrite eval_EAssign in He.
   change (compile_expr fc L ce (EAssign (EVar x) rhs))
     with (compile_expr fc L ce (EVar x) ++ compile_expr fc (L + 1) ce rhs ++ [ins0 BYTECODE_OP_ASS_INT]) in *.
@@ -821,14 +835,13 @@ Proof.
   2:{ destruct Hb as [-> Hr]. split; [reflexivity|]. eapply raises_star; [exact Hst1 | reflexivity | stk_ext | eapply raises_weaken; [exact Hr | lia | rewrite !app_length; lia] | ext_tac]. }
   destruct Hb as (s2 & m2 & a2 & Hst2 & Hip2 & Hstk2 & Hm2 & HMS2 & Hext2 & Hout2 & Hfr2).
   destruct s2 as [ip2 stk2 h2 o2 fr2]; simpl in Hip2, Hstk2, HMS2, Hout2, Hfr2; subst ip2 stk2 fr2.
-  assert (Hm1' : mget m2 c1 = Some (MA a1)) by (eapply ext_nth; eauto).
+  assert (Hm1' : vrel m2 c1 a1) by (eapply vrel_ext; eauto).
   destruct (get_cell st2 c2) as [v|] eqn:G2; [|inv He; exact I].
-  destruct (MS_payload_cell _ _ _ _ _ _ HMS2 Hm2 G2) as (hc & P2 & Hv0).
   assert (Hiv : is_intv v = true) by (eapply int_shaped_cell; eauto).
-  destruct (cell_rel_intv _ _ _ Hv0 ltac:(destruct v; try discriminate Hiv; exact I)) as (z & -> & Hv).
+  destruct (vrel_intv _ _ _ _ _ v HMS2 Hm2 G2 ltac:(destruct v; try discriminate Hiv; exact I)) as (z & P2 & Hv).
   assert (P2' : hint h2 a2 = Some z) by (unfold hint; rewrite P2; reflexivity).
   pose proof (MS_addr_lt _ _ _ _ _ HMS2 Hm1') as Hlt.
-  pose proof (MS_assign _ _ _ _ _ _ _ HMS2 Hm1' Hv) as HMS3.
+  pose proof (MS_assign _ _ _ _ _ _ _ HMS2 Hcpf Hm1' Hv) as HMS3.
   inv He. simpl.
   apply (post_ok_intro _ _ _ _ _ _ (mkst (S (ip + length ca + length cb)) (a1 :: stk) (list_upd h2 a1 (HInt z)) (out st2)) m2 a1);
     simpl; auto.
@@ -938,7 +951,7 @@ Qed.
 Lemma env_addrs : forall (m : morph) (env : Eval.env) ce sc L stk l,
   env_match m env ce sc L stk -> forallb (fun y => mem_id y sc) l = true ->
   exists addrs, Forall2 (resolves fc L ce stk gl) l addrs /\
-                Forall2 (fun y a => exists c, lookup y env = Some c /\ mget m c = Some (MA a)) l addrs.
+                Forall2 (fun y a => exists c, lookup y env = Some c /\ vrel m c a) l addrs.
 Proof.
   intros m env ce sc L stk l Hem. induction l as [|y t IH]; intros H.
   - exists []. split; constructor.
@@ -1039,14 +1052,14 @@ Proof.
   assert (Hlen := ms_len _ _ _ HMS).
   (* the extended environment, for any recorded vectors *)
   assert (Hem' : forall nv nf, CompileCorrect4Rel.env_match G fc (r_gp fr) gl
-                   {| mm := mm m ++ map MA (seq (length h) kk); mv := mv m ++ nv; mf := mf m ++ nf |} e' ce'
+                   {| mm := mm m ++ map MA (seq (length h) kk); mv := mv m ++ nv; mf := mf m ++ nf; mc := mc m |} e' ce'
                    (map fd_name fds ++ sc) L' Sk).
   { intros nv nf. apply (env_match_run G fc (r_gp fr) gl m env ce sc L stk fds st h nv nf Hem Hnd Hnew Hlen). }
   (* what every function of the run captures *)
-  set (m0 := {| mm := mm m ++ map MA (seq (length h) kk); mv := mv m ++ []; mf := mf m ++ [] |}).
+  set (m0 := {| mm := mm m ++ map MA (seq (length h) kk); mv := mv m ++ []; mf := mf m ++ []; mc := mc m |}).
   destruct (Forall2_build (fun f addrs =>
               Forall2 (resolves fc L' ce' Sk gl) (fvs_fd TL f) addrs /\
-              Forall2 (fun y a => exists c, lookup y e' = Some c /\ mget m0 c = Some (MA a)) (fvs_fd TL f) addrs) fds)
+              Forall2 (fun y a => exists c, lookup y e' = Some c /\ vrel m0 c a) (fvs_fd TL f) addrs) fds)
     as (addrss & HA).
   { intros f Hf. rewrite forallb_forall in Hfv. specialize (Hfv f Hf). apply andb_true_iff in Hfv. destruct Hfv as [_ Hfv].
     destruct (env_addrs m0 e' ce' _ L' Sk _ (Hem' [] []) Hfv) as (addrs & A & B). exists addrs. auto. }
@@ -1064,8 +1077,8 @@ Proof.
   destruct (CompileCorrect4Base.filled_vecs X addrss ks H' _ _ Hfill) as (vs & Hlvs & Hvs).
   set (nv := combine vs addrss).
   set (nf := combine (seq (length (cells st)) kk) (map (fun f => (f, e')) fds)).
-  set (m' := {| mm := mm m ++ map MA (seq (length h) kk); mv := mv m ++ nv; mf := mf m ++ nf |}).
-  assert (Hext : ext m m') by (split; [|split]; simpl; eexists; reflexivity).
+  set (m' := {| mm := mm m ++ map MA (seq (length h) kk); mv := mv m ++ nv; mf := mf m ++ nf; mc := mc m |}).
+  assert (Hext : ext m m') by (split; [|split; [|split]]; simpl; [eexists; reflexivity | eexists; reflexivity | eexists; reflexivity | exists []; now rewrite app_nil_r]).
   assert (Hl1 : length addrss = kk) by (unfold kk; symmetry; clear -HA; induction HA; simpl; auto).
   assert (Hl2 : length ks = kk) by (unfold kk; symmetry; clear -HK; induction HK; simpl; auto).
   (* the states are related again *)
@@ -1209,10 +1222,14 @@ Proof.
   - intros v l0 Hin. rewrite nth_error_app1; [apply (ms_vec _ _ _ HMS _ _ Hin) | eapply MS_vec_lt; eauto].
   - apply (ms_fcl _ _ _ HMS).
   - apply (ms_fself _ _ _ HMS).
+  - intros a c Hin. eapply (CompileCorrect4Rel.cp_ok_mono (g_all G) (x_ftab X) TL FS); [apply ext_refl | | | apply (ms_cp _ _ _ HMS _ _ Hin)].
+    + auto.
+    + intros a1 vec addr Hh. rewrite nth_error_app1; [exact Hh | apply nth_error_Some; congruence].
+  - apply (ms_nocp _ _ _ HMS).
 Qed.
 
 Lemma MS_print : forall m st h z, MS m st h -> MS m (print_num st z) h.
-Proof. intros m st h z HMS. constructor; [apply (ms_len _ _ _ HMS) | apply (ms_rel _ _ _ HMS) | apply (ms_inj _ _ _ HMS) | apply (ms_fun _ _ _ HMS) | apply (ms_vec _ _ _ HMS) | apply (ms_fcl _ _ _ HMS) | apply (ms_fself _ _ _ HMS)]. Qed.
+Proof. intros m st h z HMS. constructor; [apply (ms_len _ _ _ HMS) | apply (ms_rel _ _ _ HMS) | apply (ms_inj _ _ _ HMS) | apply (ms_fun _ _ _ HMS) | apply (ms_vec _ _ _ HMS) | apply (ms_fcl _ _ _ HMS) | apply (ms_fself _ _ _ HMS) | apply (ms_cp _ _ _ HMS) | apply (ms_nocp _ _ _ HMS)]. Qed.
 
 
 (* a run that ends where it started (same stack, extended morphism) can be put in front *)
@@ -1900,9 +1917,9 @@ Lemma compile_args_cons : forall ce L a t, compile_args ce L (a :: t) =
 Proof. reflexivity. Qed.
 
 Lemma Forall2_ext_m : forall m m' (cs astk : list nat), ext m m' ->
-  Forall2 (fun c a => mget m c = Some (MA a)) cs astk ->
-  Forall2 (fun c a => mget m' c = Some (MA a)) cs astk.
-Proof. intros m m' cs astk He H. induction H; constructor; auto. eapply ext_nth; eauto. Qed.
+  Forall2 (fun c a => vrel m c a) cs astk ->
+  Forall2 (fun c a => vrel m' c a) cs astk.
+Proof. intros m m' cs astk He H. induction H; constructor; auto. eapply vrel_ext; eauto. Qed.
 
 (* the argument list, last argument first; the images end up on the stack in source order *)
 Definition args_concl (prog : list rinstr) (s : vstate) (pc : nat) (code : list rinstr) (n : nat)
@@ -1911,7 +1928,7 @@ Definition args_concl (prog : list rinstr) (s : vstate) (pc : nat) (code : list 
   | Some cs =>
     exists s' m' astk, star prog s s' /\ v_ip s' = (pc + length code)%nat /\
       v_stk s' = astk ++ v_stk s /\ length astk = n /\
-      Forall2 (fun c a => mget m' c = Some (MA a)) cs astk /\
+      Forall2 (fun c a => vrel m' c a) cs astk /\
       MS m' st1 (v_heap s') /\ ext m m' /\ v_out s' = out st1 /\ v_fr s' = v_fr s
   | None =>
     match r with
@@ -2040,7 +2057,7 @@ Definition act_rel (m : morph) (kd : fkind) (fd : fdef) (cenv : Eval.env) (vec :
   match kd with
   | KTop => cenv = [] /\ gl = []
   | _ => In (vec, gl) (mv m) /\
-         Forall2 (fun y a => exists c, lookup y cenv = Some c /\ mget m c = Some (MA a)) (fvs_fd TL fd) gl /\
+         Forall2 (fun y a => exists c, lookup y cenv = Some c /\ vrel m c a) (fvs_fd TL fd) gl /\
          (forall x c, lookup x cenv = Some c -> is_fname FS x = false) /\
          (kd = KNamed -> exists cf, lookup (fd_name fd) cenv = Some cf /\ In (cf, (fd, cenv)) (mf m))
   end.
@@ -2052,7 +2069,7 @@ Definition act_done (prog : list rinstr) (s0 : vstate) (m : morph) (r : res) (st
     exists h' o' m' a,
       star prog s0 (mk (f_ret F) (a :: f_below F) h' o'
                        {| r_fp := f_fp F; r_gp := f_gp F; r_exc := f_exc F; r_frames := fs |}) /\
-      mget m' c = Some (MA a) /\ MS m' st' h' /\ ext m m' /\ o' = out st'
+      vrel m' c a /\ MS m' st' h' /\ ext m m' /\ o' = out st'
   | RExc ex =>
     ex = ExDivision /\
     exists h' t m',
@@ -2068,7 +2085,7 @@ Definition body_spec (k : nat) : Prop :=
     call_body genv k (penv ++ cenv) st fd = (r, st') ->
   forall prog astk h o m e0 F fs, prog_ok prog ->
     MS m st h -> o = out st ->
-    Forall2 (fun c a => mget m c = Some (MA a)) cs astk -> genv_ok m -> act_rel m kd fd cenv vec gl ->
+    Forall2 (fun c a => vrel m c a) cs astk -> genv_ok m -> act_rel m kd fd cenv vec gl ->
     act_done prog (mk (faddr (nstd + kidx)) astk h o {| r_fp := 0; r_gp := vec; r_exc := e0; r_frames := F :: fs |})
              m r st' F fs.
 
@@ -2082,6 +2099,87 @@ Variable fc : fctx.
 Variable gl : list nat.
 Hypothesis Hfc : forall g, fc_self fc = Some g -> is_fname FS g = false.
 Local Notation compile_args := (Compile4.compile_args FT TL fc).
+
+(* the name of a top-level function as a VALUE: GLOBAL_VEC 0; ID_FUNC_ADDR f makes a new function object, a
+   copy; the evaluator yields the function's cell *)
+Lemma case_EVar_top : forall fr k f n, fsig_lookup f FS = Some n -> cp = true ->
+  forall env st r st', eval genv (S k) env st (EVar f) = (r, st') ->
+  forall sc prog L ce ip stk h o m,
+    code_at prog ip (compile_expr fc L ce (EVar f)) ->
+    MS m st h -> o = out st -> env_match_g fc (r_gp fr) gl m env ce sc L stk ->
+    concl prog (mk ip stk h o fr) ip (length (compile_expr fc L ce (EVar f))) m r st'.
+Proof.
+  intros fr k f n Hs Hcp env st r st' He sc prog L ce ip stk h o m Hc HMS Hout Hem.
+  destruct (callee_of fc gl _ _ _ _ _ _ _ f n Hem Hs) as (kidx & fd & cf & Hk & Hnp & Hlv & Hmcf & Hfp).
+  rewrite eval_EVar, Hlv in He. injection He as Er Est. subst r st' o.
+  change (compile_expr fc L ce (EVar f)) with (var_code FT TL fc L ce f) in *.
+  rewrite (var_code_top fc gl Hfc _ _ _ _ _ _ _ f n Hem Hs) in *.
+  pose proof Hc as (_ & Hpo).
+  assert (Hkall : nth_error (g_all G) kidx = Some (KTop, fd)) by (apply (po_top _ Hpo); exact Hk).
+  rewrite (po_fidx _ Hpo f kidx fd Hk (Hfp 0)) in *.
+  unfold top_code in Hc. cbn [length top_code].
+  pose proof (code_at_head _ _ _ _ Hc) as HGV.
+  pose proof (code_at_head _ _ _ _ (code_at_tail _ _ _ _ Hc)) as HFA.
+  destruct (MS_copy m st h cf fd [] (length h) (faddr (nstd + kidx)) [HVec []] HMS Hcp (ms_fun _ _ _ HMS cf fd Hmcf)
+              (or_introl (ex_intro _ kidx (conj Hkall (conj eq_refl eq_refl))))) as (HMS' & Hv' & Hext').
+  cbn [length] in HMS', Hv', Hext'. replace (length h + 1)%nat with (S (length h)) in HMS', Hv', Hext' by lia.
+  simpl.
+  eapply (post_ok_intro _ _ _ _ _ _ (mk (S (S ip)) (S (length h) :: stk) (h ++ [HVec []] ++ [HFun (length h) (faddr (nstd + kidx))]) (out st) fr) _ (S (length h)));
+    [ | simpl; lia | reflexivity | exact Hv' | exact HMS' | exact Hext' | reflexivity | reflexivity].
+  eapply star_step; [apply step_global_vec0; exact HGV|]. apply star_one.
+  rewrite (step_id_func_addr fr prog (S ip) (length h) stk (h ++ [HVec []]) (out st) (nstd + kidx) 0 HFA).
+  rewrite app_length, <- app_assoc. simpl. replace (length h + 1)%nat with (S (length h)) by lia. reflexivity.
+Qed.
+
+(* the running named nested function's own name as a VALUE: COPYGLOB; ID_FUNC_ADDR f makes a new function object
+   with the vector the function runs under; the evaluator yields the cell of the closure that is running *)
+Lemma case_EVar_self : forall fr k g, cp = true ->
+  forall env st r st', eval genv (S k) env st (EVar g) = (r, st') ->
+  forall sc, mem_id g sc = false -> self_is (fc_self fc) g = true ->
+  forall prog L ce ip stk h o m,
+    code_at prog ip (compile_expr fc L ce (EVar g)) ->
+    MS m st h -> o = out st -> env_match_g fc (r_gp fr) gl m env ce sc L stk ->
+    concl prog (mk ip stk h o fr) ip (length (compile_expr fc L ce (EVar g))) m r st'.
+Proof.
+  intros fr k g Hcp env st r st' He sc Hnsc Hself prog L ce ip stk h o m Hc HMS Hout Hem.
+  assert (Hfs : fc_self fc = Some g).
+  { unfold self_is in Hself. destruct (fc_self fc) as [g'|]; [|discriminate]. apply N.eqb_eq in Hself. congruence. }
+  assert (Hcl : clookup g ce = None).
+  { destruct (clookup g ce) as [i|] eqn:E; [|reflexivity].
+    destruct Hem as (_ & _ & _ & _ & Hce & _). destruct (Hce g i E) as [_ Hx]. congruence. }
+  destruct (proj1 (proj2 (proj2 (proj2 (proj2 (proj2 Hem))))) g Hfs Hcl)
+    as (cf & kself & sfd & scenv & Hlf & Hrec & Hname & Hk & Hgv & HFv & Hnf).
+  rewrite eval_EVar in He. unfold lookup_var in He. rewrite Hlf in He. injection He as Er Est. subst r st' o.
+  pose proof Hc as (_ & Hpo).
+  pose proof (po_named _ Hpo kself KNamed sfd Hk) as Hfi. rewrite Hname in Hfi.
+  assert (Ecode : compile_expr fc L ce (EVar g) =
+                  [ins0 BYTECODE_COPYGLOB; ins BYTECODE_ID_FUNC_ADDR (Z.of_nat (nstd + kself)) 0]).
+  { unfold Compile4.compile_expr. cbn [Compile4.cexpr]. unfold var_code. rewrite Hcl, Hself, Hfi. reflexivity. }
+  rewrite Ecode in *. clear Ecode. cbn [length].
+  assert (Hcell : nth_error (cells st) cf = Some (CFun sfd scenv)).
+  { destruct (ms_fcl _ _ _ HMS _ _ _ Hrec) as [Hx | (Hx & _)]; [exact Hx | congruence]. }
+  assert (Hfr : CompileCorrect4Rel.fun_rel (g_all G) (x_ftab X) TL FS m sfd scenv (r_gp fr) (faddr (nstd + kself))).
+  { split; [exists kself, KNamed; split; [discriminate | split; [exact Hk | reflexivity]]|].
+    split; [exact Hnf|]. exists gl. split; [exact Hgv | exact HFv]. }
+  destruct (MS_copy m st h cf sfd scenv (r_gp fr) (faddr (nstd + kself)) [] HMS Hcp Hcell
+              (or_intror (conj Hfr Hrec))) as (HMS' & Hv' & Hext').
+  cbn [length app] in HMS', Hv', Hext'. rewrite Nat.add_0_r in HMS', Hv', Hext'.
+  simpl.
+  eapply (post_ok_intro _ _ _ _ _ _ (mk (S (S ip)) (length h :: stk) (h ++ [HFun (r_gp fr) (faddr (nstd + kself))]) (out st) fr) _ (length h));
+    [ | simpl; lia | reflexivity | exact Hv' | exact HMS' | exact Hext' | reflexivity | reflexivity].
+  apply (CompileCorrect4Base.step_copyglob_self X prog ip stk h (out st) fr (nstd + kself) 0). exact (proj1 Hc).
+Qed.
+
+Lemma case_EVar : forall fr k x, expr_case_at fr fc gl (S k) (EVar x).
+Proof.
+  intros fr k x env st r st' He sc HF prog L ce ip stk h o m Hc HMS Hout Hem.
+  cbn [Compile4.in_F] in HF. destruct (mem_id x sc) eqn:Ex.
+  - eapply case_EVar_sc; eauto.
+  - cbn [orb] in HF. apply andb_true_iff in HF. destruct HF as [Hlv6 HF].
+    destruct (fsig_lookup x FS) as [n|] eqn:Hs.
+    + eapply case_EVar_top; eauto.
+    + unfold is_fname in HF. fold FS in HF. rewrite Hs in HF. cbn [orb] in HF. eapply case_EVar_self; eauto.
+Qed.
 
 (* a call of a top-level function by its name *)
 Lemma case_ECall_top : forall fr k f args n, fsig_lookup f FS = Some n -> expr_spec fc gl k -> body_spec k ->
@@ -2247,19 +2345,22 @@ Proof.
   unfold apply_fun in He.
   destruct (get_cell st2 cfn) as [vfn|] eqn:Eg; [|inv He; exact I].
   destruct vfn as [ | | fd cenv | | ]; try (inv He; exact I).
-  destruct (ms_rel _ _ _ HMS2 cfn af Hm2) as (vfn' & hc & Hcv' & Hhc & Hrel & Hrec).
-  unfold get_cell in Eg. rewrite Hcv' in Eg. injection Eg as Evf. rewrite Evf in *. clear Evf.
-  destruct hc as [ | vec addr | ]; simpl in Hrel; try contradiction.
-  destruct Hrel as ((kidx & kd & Hkd & Hk & Haddr) & Hnf & l & Hvl & HFl).
+  unfold get_cell in Eg.
+  destruct (vrel_fun _ _ _ _ _ _ _ HMS2 Hm2 Eg) as (vec & addr & Hhc & Hd).
   destruct (bind_params (fd_params fd) cs) as [penv|] eqn:Hb; [|inv He; exact I].
   assert (Hg2 : genv_ok m2).
   { intros g gd Hgd. destruct Hem as (_ & _ & Hf3 & _). destruct (Hf3 g gd Hgd) as (cg & Hl & Hm).
     exists cg. split; [exact Hl | eapply ext_nth; [eapply ext_trans; [exact Hext1 | exact Hext2] | exact Hm]]. }
-  assert (Hact : act_rel m2 kd fd cenv vec l).
-  { destruct kd; [congruence | |]; (split; [exact Hvl | split; [exact HFl | split; [exact Hnf|]]]).
-    - intros _. exists cfn. split; [|apply Hrec; reflexivity].
-      eapply (ms_fself _ _ _ HMS2); [apply Hrec; reflexivity | exact Hk].
-    - intros Hx. discriminate Hx. }
+  assert (Hcal : exists kidx kd l, nth_error (g_all G) kidx = Some (kd, fd) /\
+                   addr = nth (nstd + kidx) (x_ftab X) 0%nat /\ act_rel m2 kd fd cenv vec l).
+  { destruct Hd as [(kidx & Hk & Haddr & ->) | (((kidx & kd & Hkd & Hk & Haddr) & Hnf & l & Hvl & HFl) & Hrec)].
+    - (* a copy of a top-level function *)
+      exists kidx, KTop, []. split; [exact Hk|]. split; [exact Haddr|]. split; reflexivity.
+    - exists kidx, kd, l. split; [exact Hk|]. split; [exact Haddr|].
+      destruct kd; [congruence | |]; (split; [exact Hvl | split; [exact HFl | split; [exact Hnf|]]]).
+      + intros _. exists cfn. split; [|exact Hrec]. eapply (ms_fself _ _ _ HMS2); [exact Hrec | exact Hk].
+      + intros Hx. discriminate Hx. }
+  destruct Hcal as (kidx & kd & l & Hk & Haddr & Hact).
   set (Fr := {| f_ret := retL; f_fp := r_fp fr; f_gp := r_gp fr; f_below := stk; f_exc := r_exc fr |}).
   pose proof (IHb kidx kd fd Hk cenv vec l cs penv st2 r st' Hb He prog astk h2 o2 m2 (r_exc fr) Fr (r_frames fr)
                 Hpo HMS2 Hout2 (Forall2_ext_m _ _ _ _ Hext2 HF1) Hg2 Hact) as Hbody.
@@ -2372,7 +2473,7 @@ Proof.
   rewrite eval_EVar in He. unfold lookup_var in He. rewrite Hlf in He.
   unfold apply_fun in He.
   pose proof (ext_fcl _ _ _ Hext1 Hrec) as Hrec1.
-  destruct (ms_fcl _ _ _ HMS1 _ _ _ Hrec1) as [Hcell | (w & Hcell & Hw)].
+  destruct (ms_fcl _ _ _ HMS1 _ _ _ Hrec1) as [Hcell | (_ & w & Hcell & Hw)].
   2:{ unfold get_cell in He. rewrite Hcell in He. destruct w; try contradiction; inv He; exact I. }
   unfold get_cell in He. rewrite Hcell in He.
   destruct (bind_params (fd_params sfd) cs) as [penv|] eqn:Hb; [|inv He; exact I].
@@ -2381,7 +2482,7 @@ Proof.
     exists cg. split; [exact Hl | eapply ext_nth; eauto]. }
   assert (Hact : act_rel m1 KNamed sfd scenv (r_gp fr) gl).
   { split; [eapply ext_vec; eauto|]. split; [|split; [exact Hnf|]].
-    - eapply Forall2_imp; [|exact HFv]. intros y a (c & Y1 & Y2). exists c. split; [exact Y1 | eapply ext_nth; eauto].
+    - eapply Forall2_imp; [|exact HFv]. intros y a (c & Y1 & Y2). exists c. split; [exact Y1 | eapply vrel_ext; eauto].
     - intros _. exists cf. split; [|exact Hrec1]. eapply (ms_fself _ _ _ HMS1); eauto. }
   set (h1' := h1 ++ [HFun (r_gp fr) (faddr (nstd + kself))]).
   assert (HMS1' : MS m1 st1 h1') by (unfold h1'; apply MS_heap_app; exact HMS1).
@@ -2432,7 +2533,7 @@ Proof.
   apply andb_true_iff in HF; destruct HF as [_ Fargs].
   apply andb_true_iff in Hcal; destruct Hcal as [_ Hcal].
   destruct (mem_id g sc) eqn:Eg.
-  - eapply call_val; eauto.
+  - eapply call_val; eauto. cbn [Compile4.in_F]. rewrite Eg. reflexivity.
   - cbn [orb] in Hcal. eapply case_ECall_self; eauto.
 Qed.
 
@@ -2442,10 +2543,10 @@ End Act2.
 
 Lemma param_env_names : forall ps cs penv stk (m : morph) pre,
   bind_params ps cs = Some penv ->
-  Forall2 (fun c a => mget m c = Some (MA a)) cs stk ->
+  Forall2 (fun c a => vrel m c a) cs stk ->
   forall x, mem_id x (param_names ps) = true ->
     exists i c a, clookup x (param_env ps (- Z.of_nat (length pre))) = Some i /\ i <= 0 /\
-      lookup x penv = Some c /\ mget m c = Some (MA a) /\
+      lookup x penv = Some c /\ vrel m c a /\
       nth_error (pre ++ stk) (Z.to_nat (0 - i)) = Some a.
 Proof.
   induction ps as [|[[x v] t] ps IH]; intros cs penv stk m pre Hb HF y Hy.
@@ -2491,7 +2592,7 @@ Lemma body_env_match : forall kidx kd fd cenv vec gl cs penv astk (m : morph),
   (kd <> KTop -> is_fname FS (fd_name fd) = false /\
                  forallb (fun x => negb (is_fname FS x)) (fvs_fd TL fd) = true) ->
   bind_params (fd_params fd) cs = Some penv ->
-  Forall2 (fun c a => mget m c = Some (MA a)) cs astk -> genv_ok m -> act_rel m kd fd cenv vec gl ->
+  Forall2 (fun c a => vrel m c a) cs astk -> genv_ok m -> act_rel m kd fd cenv vec gl ->
   env_match_g (ctx_of TL kd fd) vec gl m (penv ++ cenv) (param_env (fd_params fd) 0)
               (body_scope TL kd fd) 0 astk.
 Proof.
@@ -2563,7 +2664,7 @@ Lemma act_rel_ext : forall m m' kd fd cenv vec gl, ext m m' -> act_rel m kd fd c
 Proof.
   intros m m' kd fd cenv vec gl He H. destruct kd; [exact H | |];
     (destruct H as (A & B & C & D); split; [eapply ext_vec; eauto|]; split; [|split; [exact C|]];
-     [eapply Forall2_imp; [|exact B]; intros y a (c & Y1 & Y2); exists c; split; [exact Y1 | eapply ext_nth; eauto]
+     [eapply Forall2_imp; [|exact B]; intros y a (c & Y1 & Y2); exists c; split; [exact Y1 | eapply vrel_ext; eauto]
      | intros E; destruct (D E) as (cf & D1 & D2); exists cf; split; [exact D1 | eapply ext_fcl; eauto]]).
 Qed.
 
@@ -2633,7 +2734,7 @@ Lemma clause_block : forall k, (forall fc gl, good_ctx fc -> items_spec fc gl k)
   forall prog pc astk h o m cs0 vec gl e F fs,
     pcode_at prog pc (clause_body FT TL kd fd body) ->
     bind_params (fd_params fd) cs0 = Some penv ->
-    Forall2 (fun c a => mget m c = Some (MA a)) cs0 astk -> genv_ok m -> act_rel m kd fd cenv vec gl ->
+    Forall2 (fun c a => vrel m c a) cs0 astk -> genv_ok m -> act_rel m kd fd cenv vec gl ->
     MS m st h -> o = out st ->
     concl prog (mk pc astk h o {| r_fp := 0; r_gp := vec; r_exc := e; r_frames := F :: fs |}) pc
           (length (clause_body FT TL kd fd body)) m r st'.
@@ -2685,7 +2786,7 @@ Lemma handlers_run : forall k, (forall fc gl, good_ctx fc -> items_spec fc gl k)
     handlers genv j (penv ++ cenv) st ExDivision cs (fd_catch_all fd) = (r, st') ->
   forall prog top astk h o m cs0 fp F fs, prog_ok prog ->
     bind_params (fd_params fd) cs0 = Some penv ->
-    Forall2 (fun c a => mget m c = Some (MA a)) cs0 astk -> genv_ok m -> act_rel m kd fd cenv vec gl ->
+    Forall2 (fun c a => vrel m c a) cs0 astk -> genv_ok m -> act_rel m kd fd cenv vec gl ->
     MS m st h -> o = out st ->
     (cs = [] -> fd_catch_all fd = None -> fp = 0%nat) ->
     act_done prog (mk (faddr (nstd + kidx) + length (concat pre)) (top ++ astk) h o
@@ -2873,7 +2974,7 @@ Definition returned (prog : list rinstr) (s : vstate) (m : morph) (c : nat) (st'
   (e0 : option exn) (F : frame) (fs : list frame) : Prop :=
   exists h' o' m' a,
     star prog s (mk (f_ret F) (a :: f_below F) h' o' {| r_fp := f_fp F; r_gp := f_gp F; r_exc := f_exc F; r_frames := fs |}) /\
-    mget m' c = Some (MA a) /\ MS m' st' h' /\ ext m m' /\ o' = out st'.
+    vrel m' c a /\ MS m' st' h' /\ ext m m' /\ o' = out st'.
 
 Definition rethrown (prog : list rinstr) (s : vstate) (m : morph) (st' : state) (F : frame)
   (fs : list frame) : Prop :=
@@ -3008,7 +3109,7 @@ Definition titems_concl (prog : list rinstr) (s : vstate) (pc : nat) (code : lis
   | ROk c =>
     (exists s' m' a locals, star prog s s' /\ v_ip s' = (pc + length code)%nat /\
        v_stk s' = a :: locals ++ v_stk s /\ Z.of_nat (length locals) = nb /\
-       mget m' c = Some (MA a) /\ MS m' st' (v_heap s') /\ ext m m' /\ v_out s' = out st' /\
+       vrel m' c a /\ MS m' st' (v_heap s') /\ ext m m' /\ v_out s' = out st' /\
        v_fr s' = v_fr s) \/
     returned prog s m c st' e0 F fs
   | RExc ex => ex = ExDivision /\ (raises prog s pc (pc + length code) m st' \/ rethrown prog s m st' F fs)
@@ -3384,7 +3485,7 @@ Proof.
   rewrite eval_EVar in He. unfold lookup_var in He. rewrite Hlf in He.
   unfold apply_fun in He.
   pose proof (ext_fcl _ _ _ Hext1 Hrec) as Hrec1.
-  destruct (ms_fcl _ _ _ HMS1 _ _ _ Hrec1) as [Hcell | (w & Hcell & Hw)].
+  destruct (ms_fcl _ _ _ HMS1 _ _ _ Hrec1) as [Hcell | (_ & w & Hcell & Hw)].
   2:{ unfold get_cell in He. rewrite Hcell in He. destruct w; try contradiction; inv He; exact I. }
   unfold get_cell in He. rewrite Hcell in He.
   destruct (bind_params (fd_params sfd) cs) as [penv|] eqn:Hb; [|inv He; exact I].
@@ -3393,7 +3494,7 @@ Proof.
     exists cg. split; [exact Hl | eapply ext_nth; eauto]. }
   assert (Hact : act_rel m1 KNamed sfd scenv g gl).
   { split; [eapply ext_vec; eauto|]. split; [|split; [exact Hnf|]].
-    - eapply Forall2_imp; [|exact HFv]. intros y a (c & Y1 & Y2). exists c. split; [exact Y1 | eapply ext_nth; eauto].
+    - eapply Forall2_imp; [|exact HFv]. intros y a (c & Y1 & Y2). exists c. split; [exact Y1 | eapply vrel_ext; eauto].
     - intros _. exists cf. split; [|exact Hrec1]. eapply (ms_fself _ _ _ HMS1); eauto. }
   assert (Esfd : sfd = fd).
   { pose proof (po_named _ Hpo kidx kd fd Hk) as Hfi2. rewrite Hfi in Hfi2.
@@ -3628,7 +3729,7 @@ Proof.
   destruct e; try (intros ? ? ? ? ? ? HF; simpl in HF; discriminate HF).
   - apply case_EInt.
   - apply case_EBool.
-  - apply case_EVar.
+  - apply case_EVar; assumption.
   - apply case_ENeg; assumption.
   - apply case_ENot; assumption.
   - destruct op; try (apply case_EBin; [reflexivity | assumption]).
